@@ -633,7 +633,10 @@ def c05(tier, seed):
     chars = {"ascii": "a", "latin": "\u00e9", "cjk": "\u65e5", "astral": "\U0001F600"}
     for key, v in sorted(vecs.items()):
         jid = len(jobs) + 1
-        if v[1] == "uint":
+        if v[1] == "data":
+            jobs.append({"id": jid, "kind": "data", "value": v[2]})
+            meta[jid] = ("data", v[2], v[3])
+        elif v[1] == "uint":
             jobs.append({"id": jid, "kind": "uint", "hex": v[2]})
             meta[jid] = ("uint", v[2], v[3])
         else:
@@ -653,7 +656,14 @@ def c05(tier, seed):
     wire_diff = 0
     for jid, m in meta.items():
         r = res.get(jid, {})
-        if m[0] == "uint":
+        if m[0] == "data":
+            if r.get("panic") or not r.get("same") or r.get("werr") or r.get("rerr") or r.get("tag") != 0x30 + m[2]:      # the tag is written as a one-nibble number: type nibble 3
+                kind = json.loads(m[1]).get("t")
+                V.report("data-value:%s" % kind, "write_data/read_data round trip of %s gives %s (tag expected %s)" % (m[1][:120], r, m[2]),
+                         {"value": json.loads(m[1]), "expected_tag": m[2], "result": r})
+            else:
+                prim_ok += 1
+        elif m[0] == "uint":
             bits = len(m[1]) * 4
             if r.get("panic") or not r.get("same") or r.get("werr") or r.get("rerr"):
                 V.report("uint:%s" % ("ge-2^60" if int(m[1], 16) >= 1 << 60 else "lt-2^60"),
